@@ -1198,11 +1198,14 @@ func main() {
 		"every ERROR code of the version with its fields (11 consistencies, every write type, v4 numfailures / v5 reason maps of 0,1,3 endpoints with IPv4 and IPv6, CAS contentions) x every schema-change change/target (incl. FUNCTION/AGGREGATE argument lists) as RESULT and as EVENT x topology/status events with IPv4/IPv6 addresses x " +
 		"RESULT rows: metadata flags (global_tables_spec x has_more_pages x no_metadata) x one column of every type tree to depth 2 (all leaf ids of the version, custom class names, list/set/map/tuple/UDT around leaves and around each other) with 0..2 rows, and 0..3 columns over {int,varchar,blob,list<int>,tuple<int,varchar>} x 0..2 rows x every null/empty/normal assignment of the cells (rotating patterns above 4 cells; 6 in the thorough tier) x " +
 		"RESULT prepared: id x 0..3 bind columns x pk index lists x global spec x result metadata shapes. Each frame is sent uncompressed and snappy-compressed through readHeader -> readFrame -> parseFrame and, for rows, Iter.Scan / Scanner / RowData / MapScan / SliceMap. " +
-		"A case is one (frame bytes); non-trivial when the driver accepted the header and the comparison ran.")
+		"Bulk rows (large, highly compressible bodies: {1,3,6} columns over int/varchar/blob x {64,512; thorough also 5000} rows x fills {all null, all empty, one repeated row, one counting column + nulls, null/empty/value cycle} x metadata flags {none, global+has_more_pages, no_metadata+has_more_pages}) are sent uncompressed, snappy- and lz4-compressed (the compressed body is shorter than 4 bytes per cell) and must decode like the uncompressed form. " +
+		"Live part (real Conn over an in-memory pipe, versions 1-5 x negotiated compression {none, snappy, lz4}): a selection of the catalogue and all bulk rows through Conn.executeQuery (prepared, with and without skip-metadata); and every sequence of 1..3 frames (thorough, no compression: 1..4) with at least one request over the version's alphabet of frames with different headers {rows, rows+tracing, ERROR, void, SUPPORTED (OPTIONS), EVENT; v4+: rows+warning, rows+tracing+2 warnings+payload, rows+payload, ERROR+warning, void+warning+payload}, received back to back on one connection in two modes: results kept and examined after the whole sequence arrived, and all requests in flight with every requester held (StreamObserver hook) until the receive loop has reported the header of the last frame (FrameHeaderObserver hook), so that every response is parsed and examined after the later frames arrived. " +
+		"A case is one (frame bytes) or one (connection, mode, sequence); non-trivial when the driver accepted the header and the comparison ran.")
 	r.Assume("refcql/frame is a faithful reading of native_protocol_v1..v5.spec (hand-computed examples, recorded frame, encode/decode round trip of the whole catalogue)",
 		"v5 responses use the v4 layout plus the v5 error bodies (reason map, CAS contentions) - 'v5 as implemented': no result_metadata_id in RESULT Prepared, no metadata_changed flag",
 		"cell contents are opaque bytes here (value decoding is property C02/C12), except int/varchar/blob/list<int>/tuple<int,varchar> cells used for the typed scans",
-		"MapScan/SliceMap/RowData deliver the Go zero value for a null or empty cell (gocql's documented convention)")
+		"MapScan/SliceMap/RowData deliver the Go zero value for a null or empty cell (gocql's documented convention)",
+		"live sequences: the order 'later frame received, then earlier response parsed' is produced with the public FrameHeaderObserver / StreamObserver hooks only (no timing); a response must be what its own frame says whatever the connection receives next; pushed EVENT frames are observed where Session.handleEvent hands them on (the event debouncers)")
 
 	thorough := r.Thorough()
 	nw := runtime.NumCPU()
